@@ -4,6 +4,18 @@ import json, pathlib
 V = pathlib.Path(__file__).resolve().parent.parent
 ALL = [f"C{i:02d}" for i in range(1, 20)]
 CLAIMED = {
+ "C01": dict(
+   text="Coq theorems about the abstract DAG-run machine (Dag.v): for every acyclic graph, every node function, every "
+        "executor assignment and EVERY enabled sequence of signal deliveries and executor completions ending quiescent: each "
+        "child starts and finishes exactly once, finish(u) precedes start(n) on every data edge, outputs equal plain "
+        "composition, nothing left running; plus a termination bound (2|V|+|E| events) and deadlock freedom. The machine is tied to the code by "
+        "running real workflows (manual executor, prescribed completion order) and comparing the merged start/finish log, "
+        "outputs, flags, derived trigger wiring and starting nodes with the model's code-shaped scheduler, which is proved "
+        "to be one of the machine's event sequences.",
+   design="7/C01", technique="Coq invariant proof (edge-token invariant) over an event machine + trace correspondence + oracle",
+   note="Trusts: Coq kernel/vm_compute; the harness's manual executor and the replacement of composite.sleep as schedule; toposort's first "
+        "layer = sources. Executor callbacks are modelled as atomic events: the finish/checkpoint/emit split (DESIGN S20) and real "
+        "thread timing are not exhibited. Nested macros are covered by the oracle only."),
  "C04": dict(
    text="Coq theorems (totality for every pair of hint objects, reflexivity and soundness on the stated grammar) "
         "about HintsGen.v, which is regenerated from /repo's type_hinting.py by a fail-closed translator on every run; "
